@@ -220,7 +220,7 @@ def create_attribute(node: TokenAttribute, state: ConvertState):
         if name[-1] == '.':
             boolean = True
             name = name[0:-1]
-        if name[0] == '!':
+        if name and name[0] == '!':
             implied = True
             name = name[1:]
     return AbbreviationAttribute(name, None, value_type, boolean, implied, node.multiple)
